@@ -133,7 +133,6 @@ theorem RaftStatic.propFrame {voters : List Id} {n : Nat} {r r' : Raft} (h : Raf
   id := by rw [f.cfg]; exact h.id
   idnz := h.idnz
   pv := by rw [f.cfg]; exact h.pv
-  cq := by rw [f.cfg]; exact h.cq
   xfer := f.leadTransferee.trans h.xfer
   pri := f.pri.trans h.pri
   ro := by rw [f.readOnly]; exact h.ro
